@@ -143,7 +143,8 @@ def run(ctx, replay):
     ok = drift = 0
     preds = {}
     lit_rows = lit_viol = 0
-    for t, recs in sorted(verdicts.items()):
+    # literal rows first: the driver keeps artefacts for the first few violations only
+    for t, recs in sorted(verdicts.items(), key=lambda kv: (kv[0] < 1000000, kv[0])):
         rec = recs[0]
         ev = by_t[t][0]
         viol = sorted(rec["viol"])
